@@ -2,13 +2,15 @@
 //!
 //! Per-tag length-field harnesses: `[131, TAG, <length/arity/count fields: fully symbolic>, <short tail>]`.
 //! Rust panics (index, slice range, unwrap, arithmetic overflow, capacity overflow) are CBMC
-//! assertions; the allocation budget (T3) is 64 * len(input) + 4096 bytes per single request.
+//! assertions; the allocation budget (T3) is 64 * len(input) + 1 MiB per single request.
+//! The length field takes the listed *concrete* boundary values (a symbolic count would size an
+//! allocation symbolically, which CBMC cannot handle); everything behind it is symbolic.
 use crate::refetf::Out;
 use crate::vassert;
 use crate::vk;
 
 pub fn budget(len: usize) -> usize {
-    64 * len + 4096
+    64 * len + (1 << 20)
 }
 
 /// which entry point(s) to run
@@ -35,13 +37,19 @@ pub fn run(bytes: &[u8], which: u8) {
     vk::set_alloc_cap(usize::MAX);
 }
 
-/// `[131, tag, F symbolic field bytes, tail]` where tail = T small-integer terms `[97, x]`
-pub fn tag_fields<const F: usize, const T: usize>(tag: u8, which: u8) {
+/// `[131, tag, field (W bytes, big-endian, concrete value), extra symbolic bytes, tail]` where tail = T
+/// small-integer terms `[97, x]`
+pub fn tag_fields<const X: usize, const T: usize>(tag: u8, width: usize, value: u64, which: u8) {
     let mut o = Out::new();
     o.push(131);
     o.push(tag);
-    let mut i = 0;
-    while i < F {
+    let mut i = width;
+    while i > 0 {
+        i -= 1;
+        o.push((value >> (8 * i)) as u8);
+    }
+    i = 0;
+    while i < X {
         o.push(vk::u8());
         i += 1;
     }
@@ -54,8 +62,8 @@ pub fn tag_fields<const F: usize, const T: usize>(tag: u8, which: u8) {
     run(o.bytes(), which);
 }
 
-/// NEW_FUN_EXT with a well-formed prefix and a symbolic free-variable count
-pub fn new_fun_numfree(which: u8) {
+/// NEW_FUN_EXT with a well-formed prefix, the given free-variable count and nothing behind it
+pub fn new_fun_numfree(num_free: u32, which: u8) {
     let mut o = Out::new();
     o.push(131);
     o.push(112);
@@ -75,11 +83,11 @@ pub fn new_fun_numfree(which: u8) {
         o.push(vk::u8()); // Index
         i += 1;
     }
-    i = 0;
-    while i < 4 {
-        o.push(vk::u8()); // NumFree: symbolic, up to 2^32-1
-        i += 1;
-    }
+    let nf = num_free.to_be_bytes();
+    o.push(nf[0]);
+    o.push(nf[1]);
+    o.push(nf[2]);
+    o.push(nf[3]);
     for b in [119u8, 1, b'm', 97, 0, 97, 0, 88, 119, 1, b'n', 0, 0, 0, 1, 0, 0, 0, 2, 0, 0, 0, 3] {
         o.push(b);
     }
